@@ -177,6 +177,9 @@ def run(ctx: Ctx) -> None:
         for _ in range(2 if not thorough else 10):
             enc_in.append([rnd.randrange(256) for _ in range(L)])
         enc_in.append([0] * L); enc_in.append([255] * L)
+    # long inputs (payloads, ciphertexts): around every multiple of 64 KiB an implementation might slice at, and lengths = 0, 1, 2 mod 3
+    for L in (16383, 16384, 16385, 65535, 65536, 65537, 65538, 65539, 70000, 131071, 131072, 131073, 196608, 200001) + ((262143, 262144, 262145, 1 << 20) if thorough else ()):
+        enc_in.append([rnd.randrange(256) for _ in range(L)])
     ints = []
     ks = list(range(0, 40)) + [48, 64, 65, 66, 127, 128, 129, 255, 256, 257, 383, 384, 511, 512]
     for k in ks:                                   # 256^k - 1, 256^k, 256^k + 1, up to 2^4096
